@@ -28,9 +28,9 @@ m = {
     "setup_cmd": "cd /verif/owvc && GOFLAGS=-mod=mod GOPROXY=off GOSUMDB=off GOTOOLCHAIN=local go build -o /verif/bin/owvc ./cmd/owvc",
     "hooks": {
         "guard": "verif",
-        "enable": "go build tag `verif` (-tags verif): the only hook files are the comment-only contract files <pkg>/verif_contracts.go, read by owvc; they contain no declarations",
+        "enable": "go build tag `verif` (-tags verif): the hook files are the comment-only contract files <pkg>/verif_contracts*.go (no declarations; read by owvc) and one harness file models/climate/verif_harness.go (a function that calls calcDewPoint twice, for the relational clause of C20); without the tag none of them is compiled",
         "baseline_off_cmd": BASE,
-        "source_commits": __import__('subprocess').check_output(['git','-C','/repo','log','--format=%h','--reverse','--','*verif_contracts.go']).decode().split(),
+        "source_commits": __import__('subprocess').check_output(['git','-C','/repo','log','--format=%h','--reverse','--','*verif_contracts*.go','*verif_harness.go']).decode().split(),
         "add_only": True,
     },
     "engines": [{
